@@ -115,12 +115,34 @@ def install(name):
     return reactor
 
 
+def _emit(out, reactor=None):
+    import twisted
+
+    if not isinstance(out, dict):
+        out = {"result": out}
+    out["_child"] = {"reactor_class": type(reactor).__name__ if reactor is not None else None, "twisted_file": twisted.__file__}
+    data = json.dumps(out).encode()
+    fd = sys._vf_reactorproc_out_fd
+    while data:
+        n = os.write(fd, data)
+        data = data[n:]
+    os.close(fd)
+    sys.stderr.flush()
+    os._exit(0)  # do not wait for stray non-daemon threads of a broken run
+
+
+def emit_and_exit(out, reactor=None):
+    """Emergency exit for scenarios (any thread): report `out` now although the reactor cannot be
+    stopped (e.g. the code under test lost the stop request).  Never returns."""
+    _emit(out, reactor)
+
+
 def _child_main(argv):
     import faulthandler
 
     name, target, timeout = argv[0], argv[1], int(argv[2])
     inp = json.loads(sys.stdin.buffer.read().decode())
-    out_fd = os.dup(1)
+    sys._vf_reactorproc_out_fd = os.dup(1)
     os.dup2(2, 1)  # scenario prints go to stderr
     sys.stdout = sys.stderr
     # if the parent's watchdog is about to fire, leave the thread stacks in stderr for the report
@@ -130,8 +152,6 @@ def _child_main(argv):
     except Exception as e:  # reactor type not available on this platform
         sys.stderr.write("reactor %s unavailable: %r\n" % (name, e))
         sys.exit(3)
-    import twisted
-
     if target.endswith(".py"):
         import runpy
 
@@ -139,17 +159,8 @@ def _child_main(argv):
     else:
         fn = importlib.import_module(target).scenario
     out = fn(reactor, inp)
-    if not isinstance(out, dict):
-        out = {"result": out}
-    out["_child"] = {"reactor_class": type(reactor).__name__, "twisted_file": twisted.__file__}
     faulthandler.cancel_dump_traceback_later()
-    data = json.dumps(out).encode()
-    while data:
-        n = os.write(out_fd, data)
-        data = data[n:]
-    os.close(out_fd)
-    sys.stderr.flush()
-    os._exit(0)  # do not wait for stray non-daemon threads of a broken run
+    _emit(out, reactor)
 
 
 if __name__ == "__main__":
